@@ -106,8 +106,8 @@ def run(ctx):
     # downsize() must not change any answer — two runs side by side, with and without the downsize calls
     uni = L.Universe()
     tw_ran = 0
-    for cls in ("SolverReplacement", "SolverReplacement:noauto"):
-        found, ran = L.twin_search(uni, ctx.rng, cls, "no-downsize", ctx.pick(16, 200), ctx.pick(14, 30))
+    for cls in ("SolverReplacement", "SolverReplacement:noauto", "SolverHybrid"):
+        found, ran = L.twin_search(uni, ctx.rng, cls, "no-downsize", ctx.pick(12, 200), ctx.pick(14, 30), approx=0.5 if cls == "SolverHybrid" else 0.0)
         tw_ran += ran
         ctx.count(ran)
         for f in found[:2]:
